@@ -128,16 +128,20 @@ def Err.toString : Err → String
   | .notOpted => "notopted" | .noApp => "noapp" | .unavail => "unavail" | .clearBox => "clearbox" | .recreate => "recreate"
   | .wrongSize => "wrongsize"
 
-/-- `updateCounts`: decrement the count of the old value's type, increment the count of the new value's type (uint64, wrapping) -/
+/-- the value exists and holds a uint / a byte string -/
+def optIsU : Option TVal → Bool
+  | some (.uint _) => true
+  | _ => false
+def optIsB : Option TVal → Bool
+  | some (.bytes _) => true
+  | _ => false
+
+/-- `updateCounts`: if the value existed before, decrement the count of the old type; if it exists now, increment the count of
+    the new type (uint64 arithmetic: wrapping) -/
 def updateCounts (c : Schema) (old new : Option TVal) : Schema :=
-  let c1 : Schema := match old with
-    | some (.bytes _) => { c with nbs := dec64 c.nbs }
-    | some (.uint _) => { c with nui := dec64 c.nui }
-    | none => c
-  match new with
-  | some (.bytes _) => { c1 with nbs := inc64 c1.nbs }
-  | some (.uint _) => { c1 with nui := inc64 c1.nui }
-  | none => c1
+  let u1 := if optIsU old then dec64 c.nui else c.nui
+  let b1 := if optIsB old then dec64 c.nbs else c.nbs
+  { nui := if optIsU new then inc64 u1 else u1, nbs := if optIsB new then inc64 b1 else b1 }
 
 /-- `storageDelta.checkCounts` -/
 def checkCounts (c max : Schema) : Except Err Unit :=
@@ -155,13 +159,15 @@ def valueChecks (P : Proto) (k : Bytes) (v : TVal) : Except Err Unit :=
   | .uint _ => .ok ()
 
 /-- `roundCowState.setKey` on an allocated storage: length rules, write, `updateCounts`, then `checkCounts` -/
-def setKey (P : Proto) (s : Store) (k : Bytes) (v : TVal) : Except Err Store := do
-  if k.length > P.maxKeyLen then throw .longKey
-  valueChecks P k v
-  let old := aget s.kv k
-  let s' : Store := { s with kv := aset s.kv k v, counts := updateCounts s.counts old (some v) }
-  checkCounts s'.counts s'.max
-  return s'
+def setKey (P : Proto) (s : Store) (k : Bytes) (v : TVal) : Except Err Store :=
+  if k.length > P.maxKeyLen then .error .longKey else
+  match valueChecks P k v with
+  | .error e => .error e
+  | .ok _ =>
+    let c := updateCounts s.counts (aget s.kv k) (some v)
+    match checkCounts c s.max with
+    | .error e => .error e
+    | .ok _ => .ok { s with kv := aset s.kv k v, counts := c }
 
 /-- `roundCowState.delKey` on an allocated storage ("deletion cannot cause us to violate maxCount": no check) -/
 def delKey (s : Store) (k : Bytes) : Store :=
@@ -218,12 +224,12 @@ def boxBytes (σ : State) (a : AppId) : Nat := wsum boxWeight (σ.boxes a)
 /-! ## applications.go: NewBox / SetBox / DelBox -/
 
 /-- `roundCowState.NewBox(appIdx, key, value, appAddr)`; the counters of the application account of `a` -/
-def newBox (P : Proto) (σ : State) (a : AppId) (name val : Bytes) : Except Err State := do
-  if name.length > P.maxKeyLen then throw .longName
-  if name.length = 0 then throw .emptyName
-  if val.length > P.maxBoxSize then throw .tooLarge
-  if (aget (σ.boxes a) name).isSome then throw .recreate
-  return { σ with
+def newBox (P : Proto) (σ : State) (a : AppId) (name val : Bytes) : Except Err State :=
+  if name.length > P.maxKeyLen then .error .longName
+  else if name.length = 0 then .error .emptyName
+  else if val.length > P.maxBoxSize then .error .tooLarge
+  else if (aget (σ.boxes a) name).isSome then .error .recreate
+  else .ok { σ with
     tb := upd σ.tb a (addSat (σ.tb a) 1),
     tbb := upd σ.tbb a (addSat (σ.tbb a) (name.length + val.length)),
     boxes := upd σ.boxes a (aset (σ.boxes a) name val) }
@@ -395,104 +401,176 @@ def localAvail (cx : Cx) (a : Addr) : Bool := decide (a = cx.snd) || cx.accts.co
 /-- the owner operand: 0 = the `box_*` opcode (own application), otherwise `app_box_*` with that application id -/
 def ownerOf (cx : Cx) (o : AppId) : AppId := if o = 0 then cx.self else o
 
-/-- one effect: (state', availability', logged values) -/
-def evalEffect (P : Proto) (cx : Cx) (σ : State) (av : Avail) : Effect → Except Err (State × Avail × List Nat)
-  | .globalPut k v => do
-    if k.length > P.maxKeyLen then throw .longKey
-    match σ.apps cx.self with
-    | none => throw .noApp
-    | some app =>
-      valueChecks P k v
-      let g ← setKey P app.g k v
-      return ({ σ with apps := upd σ.apps cx.self (some { app with g := g }) }, av, [])
-  | .globalDel k =>
-    match σ.apps cx.self with
-    | none => throw .noApp
-    | some app => return ({ σ with apps := upd σ.apps cx.self (some { app with g := delKey app.g k }) }, av, [])
-  | .localPut a k v => do
-    if k.length > P.maxKeyLen then throw .longKey
-    if !localAvail cx a then throw .unavail
-    match σ.locals a cx.self with
-    | none => throw .notOpted
+abbrev Res := Except Err (State × Avail × List Nat)
+
+/-- `app_global_put` (opAppGlobalPut → SetGlobal → setKey) -/
+def effGlobalPut (P : Proto) (cx : Cx) (σ : State) (av : Avail) (k : Bytes) (v : TVal) : Res :=
+  if k.length > P.maxKeyLen then .error .longKey else
+  match σ.apps cx.self with
+  | none => .error .noApp
+  | some app =>
+    match valueChecks P k v with
+    | .error e => .error e
+    | .ok _ =>
+      match setKey P app.g k v with
+      | .error e => .error e
+      | .ok g => .ok ({ σ with apps := upd σ.apps cx.self (some { app with g := g }) }, av, [])
+
+/-- `app_global_del` -/
+def effGlobalDel (cx : Cx) (σ : State) (av : Avail) (k : Bytes) : Res :=
+  match σ.apps cx.self with
+  | none => .error .noApp
+  | some app => .ok ({ σ with apps := upd σ.apps cx.self (some { app with g := delKey app.g k }) }, av, [])
+
+/-- `app_local_put` -/
+def effLocalPut (P : Proto) (cx : Cx) (σ : State) (av : Avail) (a : Addr) (k : Bytes) (v : TVal) : Res :=
+  if k.length > P.maxKeyLen then .error .longKey
+  else if !localAvail cx a then .error .unavail
+  else match σ.locals a cx.self with
+    | none => .error .notOpted
     | some s =>
-      valueChecks P k v
-      let s' ← setKey P s k v
-      return ({ σ with locals := upd2 σ.locals a cx.self (some s') }, av, [])
-  | .localDel a k => do
-    if !localAvail cx a then throw .unavail
-    match σ.locals a cx.self with
-    | none => throw .notOpted
-    | some s => return ({ σ with locals := upd2 σ.locals a cx.self (some (delKey s k)) }, av, [])
-  | .boxCreate o name n => do
-    let owner := ownerOf cx o
-    lengthChecks P name n
-    let (av', _, ex) ← availableAppBox σ av cx owner name .create n
-    if ex then return (σ, av', [0])
-    let σ' ← newBox P σ owner name (zeros n)
-    return (σ', av', [1])
-  | .boxResize o name n => do
-    let owner := ownerOf cx o
-    lengthChecks P name n
-    let (av', contents, ex) ← availableAppBox σ av cx owner name .resize n
-    if !ex then throw .noBox
-    let (_, σ1) := delBox σ owner name
-    let σ2 ← newBox P σ1 owner name (resized contents n)
-    return (σ2, av', [])
-  | .boxPut o name v => do
-    let owner := ownerOf cx o
-    lengthChecks P name v.length
-    let (av', contents, ex) ← availableAppBox σ av cx owner name .write v.length
-    if ex then
-      if contents.length ≠ v.length then throw .putSize
-      let σ' ← setBox σ owner name v
-      return (σ', av', [])
-    let σ' ← newBox P σ owner name v
-    return (σ', av', [])
-  | .boxReplace o name start v => do
-    let owner := ownerOf cx o
-    lengthChecks P name (addSat start v.length)
-    let (av', contents, ex) ← availableAppBox σ av cx owner name .write 0
-    if !ex then throw .noBox
-    let bytes ← replaceCarefully contents v start
-    let σ' ← setBox σ owner name bytes
-    return (σ', av', [])
-  | .boxSplice o name start len v => do
-    let owner := ownerOf cx o
-    lengthChecks P name 0
-    let (av', contents, ex) ← availableAppBox σ av cx owner name .write 0
-    if !ex then throw .noBox
-    let bytes ← spliceCarefully contents v start len
-    let σ' ← setBox σ owner name bytes
-    return (σ', av', [])
-  | .boxDel o name => do
-    let owner := ownerOf cx o
-    lengthChecks P name 0
-    let (av', _, ex) ← availableAppBox σ av cx owner name .delete 0
-    if ex then
-      let (_, σ') := delBox σ owner name
-      return (σ', av', [1])
-    return (σ, av', [0])
-  | .boxLen o name => do
-    let owner := ownerOf cx o
-    lengthChecks P name 0
-    let (av', contents, ex) ← availableAppBox σ av cx owner name .read 0
-    return (σ, av', [if ex then 1 else 0, contents.length])
-  | .setFam b =>
-    match σ.apps cx.self with
-    | none => throw .noApp
-    | some app => return ({ σ with apps := upd σ.apps cx.self (some { app with fba := decide (b ≠ 0) }) }, av, [])
-  | .setFbr b =>
-    match σ.apps cx.self with
-    | none => throw .noApp
-    | some app => return ({ σ with apps := upd σ.apps cx.self (some { app with fbr := decide (b ≠ 0) }) }, av, [])
+      match valueChecks P k v with
+      | .error e => .error e
+      | .ok _ =>
+        match setKey P s k v with
+        | .error e => .error e
+        | .ok s' => .ok ({ σ with locals := upd2 σ.locals a cx.self (some s') }, av, [])
+
+/-- `app_local_del` -/
+def effLocalDel (cx : Cx) (σ : State) (av : Avail) (a : Addr) (k : Bytes) : Res :=
+  if !localAvail cx a then .error .unavail
+  else match σ.locals a cx.self with
+    | none => .error .notOpted
+    | some s => .ok ({ σ with locals := upd2 σ.locals a cx.self (some (delKey s k)) }, av, [])
+
+/-- `box_create` / `app_box_create` (boxCreateImpl) -/
+def effBoxCreate (P : Proto) (cx : Cx) (σ : State) (av : Avail) (owner : AppId) (name : Bytes) (n : Nat) : Res :=
+  match lengthChecks P name n with
+  | .error e => .error e
+  | .ok _ =>
+    match availableAppBox σ av cx owner name .create n with
+    | .error e => .error e
+    | .ok (av', _, ex) =>
+      if ex then .ok (σ, av', [0])
+      else match newBox P σ owner name (zeros n) with
+        | .error e => .error e
+        | .ok σ' => .ok (σ', av', [1])
+
+/-- `box_resize` / `app_box_resize` (boxResizeImpl): DelBox then NewBox with the resized contents -/
+def effBoxResize (P : Proto) (cx : Cx) (σ : State) (av : Avail) (owner : AppId) (name : Bytes) (n : Nat) : Res :=
+  match lengthChecks P name n with
+  | .error e => .error e
+  | .ok _ =>
+    match availableAppBox σ av cx owner name .resize n with
+    | .error e => .error e
+    | .ok (av', contents, ex) =>
+      if !ex then .error .noBox
+      else match newBox P (delBox σ owner name).2 owner name (resized contents n) with
+        | .error e => .error e
+        | .ok σ2 => .ok (σ2, av', [])
+
+/-- `box_put` / `app_box_put` (boxPutImpl) -/
+def effBoxPut (P : Proto) (cx : Cx) (σ : State) (av : Avail) (owner : AppId) (name : Bytes) (v : Bytes) : Res :=
+  match lengthChecks P name v.length with
+  | .error e => .error e
+  | .ok _ =>
+    match availableAppBox σ av cx owner name .write v.length with
+    | .error e => .error e
+    | .ok (av', contents, ex) =>
+      if ex then
+        if contents.length ≠ v.length then .error .putSize
+        else match setBox σ owner name v with
+          | .error e => .error e
+          | .ok σ' => .ok (σ', av', [])
+      else match newBox P σ owner name v with
+        | .error e => .error e
+        | .ok σ' => .ok (σ', av', [])
+
+/-- `box_replace` / `app_box_replace` (boxReplaceImpl) -/
+def effBoxReplace (P : Proto) (cx : Cx) (σ : State) (av : Avail) (owner : AppId) (name : Bytes) (start : Nat) (v : Bytes) : Res :=
+  match lengthChecks P name (addSat start v.length) with
+  | .error e => .error e
+  | .ok _ =>
+    match availableAppBox σ av cx owner name .write 0 with
+    | .error e => .error e
+    | .ok (av', contents, ex) =>
+      if !ex then .error .noBox
+      else match replaceCarefully contents v start with
+        | .error e => .error e
+        | .ok bytes =>
+          match setBox σ owner name bytes with
+          | .error e => .error e
+          | .ok σ' => .ok (σ', av', [])
+
+/-- `box_splice` / `app_box_splice` (boxSpliceImpl) -/
+def effBoxSplice (P : Proto) (cx : Cx) (σ : State) (av : Avail) (owner : AppId) (name : Bytes) (start len : Nat) (v : Bytes) : Res :=
+  match lengthChecks P name 0 with
+  | .error e => .error e
+  | .ok _ =>
+    match availableAppBox σ av cx owner name .write 0 with
+    | .error e => .error e
+    | .ok (av', contents, ex) =>
+      if !ex then .error .noBox
+      else match spliceCarefully contents v start len with
+        | .error e => .error e
+        | .ok bytes =>
+          match setBox σ owner name bytes with
+          | .error e => .error e
+          | .ok σ' => .ok (σ', av', [])
+
+/-- `box_del` / `app_box_del` (boxDelImpl) -/
+def effBoxDel (P : Proto) (cx : Cx) (σ : State) (av : Avail) (owner : AppId) (name : Bytes) : Res :=
+  match lengthChecks P name 0 with
+  | .error e => .error e
+  | .ok _ =>
+    match availableAppBox σ av cx owner name .delete 0 with
+    | .error e => .error e
+    | .ok (av', _, ex) =>
+      if ex then .ok ((delBox σ owner name).2, av', [1]) else .ok (σ, av', [0])
+
+/-- `box_len` / `app_box_len` (boxLenImpl): logs "exists" then the length -/
+def effBoxLen (P : Proto) (cx : Cx) (σ : State) (av : Avail) (owner : AppId) (name : Bytes) : Res :=
+  match lengthChecks P name 0 with
+  | .error e => .error e
+  | .ok _ =>
+    match availableAppBox σ av cx owner name .read 0 with
+    | .error e => .error e
+    | .ok (av', contents, ex) => .ok (σ, av', [if ex then 1 else 0, contents.length])
+
+/-- `app_params_set AppFamilyBoxAccess / AppForeignBoxReads` -/
+def effSetFlag (cx : Cx) (σ : State) (av : Avail) (fam : Bool) (b : Nat) : Res :=
+  match σ.apps cx.self with
+  | none => .error .noApp
+  | some app =>
+    let app' : App := if fam then { app with fba := decide (b ≠ 0) } else { app with fbr := decide (b ≠ 0) }
+    .ok ({ σ with apps := upd σ.apps cx.self (some app') }, av, [])
+
+/-- one effect: (state', availability', logged values) -/
+def evalEffect (P : Proto) (cx : Cx) (σ : State) (av : Avail) : Effect → Res
+  | .globalPut k v => effGlobalPut P cx σ av k v
+  | .globalDel k => effGlobalDel cx σ av k
+  | .localPut a k v => effLocalPut P cx σ av a k v
+  | .localDel a k => effLocalDel cx σ av a k
+  | .boxCreate o name n => effBoxCreate P cx σ av (ownerOf cx o) name n
+  | .boxResize o name n => effBoxResize P cx σ av (ownerOf cx o) name n
+  | .boxPut o name v => effBoxPut P cx σ av (ownerOf cx o) name v
+  | .boxReplace o name start v => effBoxReplace P cx σ av (ownerOf cx o) name start v
+  | .boxSplice o name start len v => effBoxSplice P cx σ av (ownerOf cx o) name start len v
+  | .boxDel o name => effBoxDel P cx σ av (ownerOf cx o) name
+  | .boxLen o name => effBoxLen P cx σ av (ownerOf cx o) name
+  | .setFam b => effSetFlag cx σ av true b
+  | .setFbr b => effSetFlag cx σ av false b
 
 /-- a straight-line script -/
-def runEffects (P : Proto) (cx : Cx) : State → Avail → List Effect → Except Err (State × Avail × List Nat)
+def runEffects (P : Proto) (cx : Cx) : State → Avail → List Effect → Res
   | σ, av, [] => .ok (σ, av, [])
-  | σ, av, e :: es => do
-    let (σ1, av1, l1) ← evalEffect P cx σ av e
-    let (σ2, av2, l2) ← runEffects P cx σ1 av1 es
-    return (σ2, av2, l1 ++ l2)
+  | σ, av, e :: es =>
+    match evalEffect P cx σ av e with
+    | .error err => .error err
+    | .ok (σ1, av1, l1) =>
+      match runEffects P cx σ1 av1 es with
+      | .error err => .error err
+      | .ok (σ2, av2, l2) => .ok (σ2, av2, l1 ++ l2)
 
 /-! ## transactions and groups -/
 
@@ -543,55 +621,83 @@ def startGroup (P : Proto) (σ : State) (g : List Txn) (av : Avail) (extra : Lis
     if readBytes σ av2.boxes > budget then .error .rBudget
     else .ok { av2 with ioBudget := budget, started := true }
 
+/-- application creation: createApplication + AllocateApp(global), then the approval program (the script) runs.
+    EvalContract: availability, the index-0 references of this transaction, createdApps, read budget. -/
+def txnCreate (P : Proto) (g : List Txn) (σ : State) (av : Avail) (snd : Addr) (gs ls : Schema) (accts : List Addr)
+    (refs : List BoxRef) (script : List Effect) : Res :=
+  let id := σ.nextApp
+  let app : App := { creator := snd, lschema := ls, g := { max := gs } }
+  let σ1 : State := { σ with apps := upd σ.apps id (some app), nextApp := id + 1 }
+  let own := (refs.filter (fun x => x.1 = 0 && !x.2.isEmpty)).map (fun x => (id, x.2))
+  match startGroup P σ1 g av own (some id) with
+  | .error e => .error e
+  | .ok av1 => runEffects P { self := id, snd := snd, accts := accts } σ1 av1 script
+
+/-- ClearState: HasAppLocalState first; the clear program (`int 1`) runs only if the application still exists; then
+    closeOutApplication -/
+def txnClear (P : Proto) (g : List Txn) (σ : State) (av : Avail) (snd : Addr) (a : AppId) : Res :=
+  match σ.locals snd a with
+  | none => .error .notOpted
+  | some _ =>
+    match (if (σ.apps a).isSome then startGroup P σ g av [] none else .ok av) with
+    | .error e => .error e
+    | .ok av1 => .ok ({ σ with locals := upd2 σ.locals snd a none }, av1, [])
+
+/-- the allocation of an OptIn (before the program runs) -/
+def optIn (σ : State) (snd : Addr) (a : AppId) (app : App) (oc : OC) : Except Err State :=
+  if oc = .optin then
+    match σ.locals snd a with
+    | some _ => .error .alreadyOpted
+    | none => .ok { σ with locals := upd2 σ.locals snd a (some { max := app.lschema }) }
+  else .ok σ
+
+/-- what follows the approval program: CloseOut / DeleteApplication -/
+def completion (σ2 : State) (av2 : Avail) (logs : List Nat) (snd : Addr) (a : AppId) (oc : OC) : Res :=
+  match oc with
+  | .closeout =>
+    match σ2.locals snd a with
+    | none => .error .notOpted
+    | some _ => .ok ({ σ2 with locals := upd2 σ2.locals snd a none }, av2, logs)
+  | .delete => .ok ({ σ2 with apps := upd σ2.apps a none }, av2, logs)
+  | _ => .ok (σ2, av2, logs)
+
+/-- NoOp / OptIn / CloseOut / DeleteApplication call -/
+def txnCall (P : Proto) (g : List Txn) (σ : State) (av : Avail) (snd : Addr) (a : AppId) (oc : OC) (accts : List Addr)
+    (script : List Effect) : Res :=
+  match σ.apps a with
+  | none => .error .noApp
+  | some app =>
+    match optIn σ snd a app oc with
+    | .error e => .error e
+    | .ok σ1 =>
+      match startGroup P σ1 g av [] none with
+      | .error e => .error e
+      | .ok av1 =>
+        match runEffects P { self := a, snd := snd, accts := accts } σ1 av1 script with
+        | .error e => .error e
+        | .ok (σ2, av2, logs) => completion σ2 av2 logs snd a oc
+
+/-- UpdateApplication: the approval program runs (it approves updates without effects), then updateApplication; a size
+    update (`UpdatingSizes`: non-zero schema) goes through SetAppGlobalSchema -/
+def txnUpdate (P : Proto) (g : List Txn) (σ : State) (av : Avail) (a : AppId) (gs : Schema) : Res :=
+  match σ.apps a with
+  | none => .error .noApp
+  | some app =>
+    match startGroup P σ g av [] none with
+    | .error e => .error e
+    | .ok av1 =>
+      if gs.nui = 0 ∧ gs.nbs = 0 then .ok (σ, av1, [])
+      else match setSchema app.g gs with
+        | .error e => .error e
+        | .ok g' => .ok ({ σ with apps := upd σ.apps a (some { app with g := g' }) }, av1, [])
+
 /-- one transaction of a group: (state', availability', logs) -/
-def evalTxn (P : Proto) (g : List Txn) (σ : State) (av : Avail) : Txn → Except Err (State × Avail × List Nat)
+def evalTxn (P : Proto) (g : List Txn) (σ : State) (av : Avail) : Txn → Res
   | .fund => .ok (σ, av, [])
-  | .create snd gs ls accts refs script => do
-    let id := σ.nextApp
-    -- createApplication + AllocateApp(global)
-    let app : App := { creator := snd, lschema := ls, g := { max := gs } }
-    let σ1 : State := { σ with apps := upd σ.apps id (some app), nextApp := id + 1 }
-    -- EvalContract: availability, the index-0 references of this transaction, createdApps, read budget
-    let own := (refs.filter (fun x => x.1 = 0 && !x.2.isEmpty)).map (fun x => (id, x.2))
-    let av1 ← startGroup P σ1 g av own (some id)
-    runEffects P { self := id, snd := snd, accts := accts } σ1 av1 script
-  | .call snd a oc accts _ script => do
-    match oc with
-    | .clear =>
-      -- HasAppLocalState first; the clear program (`int 1`) runs only if the application still exists
-      match σ.locals snd a with
-      | none => throw .notOpted
-      | some _ =>
-        let av1 ← (if (σ.apps a).isSome then startGroup P σ g av [] none else pure av)
-        return ({ σ with locals := upd2 σ.locals snd a none }, av1, [])
-    | _ =>
-      match σ.apps a with
-      | none => throw .noApp
-      | some app =>
-        -- OptIn allocates before the program runs
-        let σ1 ← (if oc = .optin then
-                    (match σ.locals snd a with
-                     | some _ => .error Err.alreadyOpted
-                     | none => .ok { σ with locals := upd2 σ.locals snd a (some { max := app.lschema }) })
-                  else .ok σ : Except Err State)
-        let av1 ← startGroup P σ1 g av [] none
-        let (σ2, av2, logs) ← runEffects P { self := a, snd := snd, accts := accts } σ1 av1 script
-        match oc with
-        | .closeout =>
-          match σ2.locals snd a with
-          | none => throw .notOpted
-          | some _ => return ({ σ2 with locals := upd2 σ2.locals snd a none }, av2, logs)
-        | .delete => return ({ σ2 with apps := upd σ2.apps a none }, av2, logs)
-        | _ => return (σ2, av2, logs)
-  | .update _ a gs => do
-    match σ.apps a with
-    | none => throw .noApp
-    | some app =>
-      -- the approval program runs (it approves updates without effects), then updateApplication
-      let av1 ← startGroup P σ g av [] none
-      if gs.nui = 0 ∧ gs.nbs = 0 then return (σ, av1, [])      -- not `UpdatingSizes`
-      let g' ← setSchema app.g gs
-      return ({ σ with apps := upd σ.apps a (some { app with g := g' }) }, av1, [])
+  | .create snd gs ls accts refs script => txnCreate P g σ av snd gs ls accts refs script
+  | .call snd a .clear _ _ _ => txnClear P g σ av snd a
+  | .call snd a oc accts _ script => txnCall P g σ av snd a oc accts script
+  | .update _ a gs => txnUpdate P g σ av a gs
 
 /-- the members of a group in order; error = (class, index of the failing member) -/
 def evalTxns (P : Proto) (g : List Txn) : State → Avail → List Txn → Nat → Except (Err × Nat) (State × Avail × List (List Nat))
